@@ -181,3 +181,53 @@ func vp_C17_base64_decode() {
 	vpReach("decoded", err == nil && n > 0)
 	vpReach("rejected", err != nil)
 }
+
+// vp:check C17 both configs=sp2:raw|u-A|u-plus|u-slash|short-slash;sp3:raw|u-z|u-slash|short-slash K=40 timeout=900
+// vp:check C02 both configs=sp2:raw|u-plus|short-slash;sp3:raw|u-slash|short-slash K=40 timeout=900
+// vp_C17_base64_json: Base64Bytes read from JSON gives the same bytes however the JSON string spells its characters:
+// four base64 characters: a fixed one, an arbitrary raw one (solver-chosen), and two that are each raw (arbitrary), written as
+// \u00XX (representatives: a letter, '+', '/') or - for '/' - as the optional \/ escape; and MarshalJSON /
+// UnmarshalJSON round-trip. Signatures and keys arrive this way, so a re-serialised signed object must keep verifying
+// (C02).
+func vp_C17_base64_json() {
+	const hex = "0123456789abcdef"
+	var text, plain []byte
+	for i := 0; i < 4; i++ {
+		name := string(rune('0' + i))
+		sp := "raw"
+		if i >= 2 {
+			sp = vpConfig("sp" + name)
+		}
+		switch sp {
+		case "raw":
+			if i == 0 {
+				plain = append(plain, 'Q')
+				text = append(text, 'Q')
+				continue
+			}
+			c := vpNondetU8("char" + name)
+			alnum := (c >= 'A' && c <= 'Z') || (c >= 'a' && c <= 'z') || (c >= '0' && c <= '9')
+			vpAssume(alnum || c == '+' || c == '/')
+			plain = append(plain, c)
+			text = append(text, c)
+		case "short-slash":
+			plain = append(plain, '/')
+			text = append(text, '\\', '/')
+		default:
+			c := map[string]byte{"u-A": 'A', "u-z": 'z', "u-plus": '+', "u-slash": '/'}[sp]
+			plain = append(plain, c)
+			text = append(text, '\\', 'u', '0', '0', hex[c>>4], hex[c&0xF])
+		}
+	}
+	var want Base64Bytes
+	vpAssume(want.Decode(string(plain)) == nil)
+	doc := append(append([]byte{'"'}, text...), '"')
+	var got Base64Bytes
+	err := got.UnmarshalJSON(doc)
+	vpAssert("escaped-spelling-decodes", err == nil)
+	vpAssert("same-bytes", err == nil && string(got) == string(want))
+	out, merr := want.MarshalJSON()
+	var back Base64Bytes
+	vpAssert("marshal-unmarshal-roundtrip", merr == nil && back.UnmarshalJSON(out) == nil && string(back) == string(want))
+	vpReach("done", true)
+}
